@@ -691,7 +691,7 @@ void run_case(char *rest)
 	if (pid < 0) { printf("FORKFAIL"); return; }
 	if (pid == 0) {
 		if (errf) dup2(fileno(errf), 2);
-		alarm(300);
+		alarm(240);
 		if (strncmp(rest, "rc ", 3) == 0) case_rc(rest + 3);
 		else if (strncmp(rest, "cont ", 5) == 0) case_cont(rest + 5);
 		else if (strncmp(rest, "last ", 5) == 0) case_last(rest + 5);
@@ -720,6 +720,7 @@ void run_case(char *rest)
 		fflush(stderr);
 		if (WIFEXITED(status) && WEXITSTATUS(status) == 66) printf(" CRASH tsan:race");
 		else if (WIFEXITED(status) && WEXITSTATUS(status) == 67) printf(" CRASH tsan:fatal");
+		else if (WIFSIGNALED(status) && WTERMSIG(status) == SIGALRM) printf(" TIMEOUT");   /* the case's own time budget: not a judgement */
 		else if (WIFSIGNALED(status)) printf(" CRASH signal:%d", WTERMSIG(status));
 		else printf(" CRASH exit:%d", WEXITSTATUS(status));
 	}
